@@ -178,3 +178,59 @@ func verifH_C15_stop_restart() {
 	verifAssert(failed == 1, "reconnect_failed is announced exactly once when the cycle is exhausted")
 	verifReach("end")
 }
+
+// C15_offline_ack: among the events emitted while disconnected one carries an ack function with a timeout (public
+// Timeout(d).Emit), and the outage lasts longer than that timeout: its callback gets ErrAckTimeout once and the event is
+// withdrawn - but every OTHER non-volatile offline emit is still delivered exactly once, in emit order, after the
+// reconnection (whatever ack id the timed-out emit happened to get: the first ack id of a socket is 0).
+//
+//verif:unwind 16
+//verif:rand concrete
+//verif:sleep gate
+func verifH_C15_offline_ack() {
+	E := 3
+	if verifThorough() {
+		E = 4
+	}
+	m, cl := verifClientWorld(&verifPipeParser{}, "/")
+	c := cl["/"]
+	c.state = clientSocketConnStateDisconnected
+	e := verifChoose(1, E)
+	t := verifChoose(0, e-1) // the emit that carries the ack with timeout
+	calls := 0
+	var gotErr error
+	var want [][]byte
+	for i := 0; i < e; i++ {
+		name := string([]byte{'e', byte('0' + i)})
+		if i == t {
+			c.Timeout(30*time.Millisecond).Emit(name, func(err error, arg string) {
+				calls++
+				gotErr = err
+			})
+			continue
+		}
+		volatile := verifAnyBool()
+		c.emit(name, 0, volatile, false)
+		if !volatile {
+			want = append(want, []byte(name))
+		}
+	}
+	verifWake(1) // the outage outlasts the ack timeout
+	verifWaitQuiescent()
+	if verifIsNative() {
+		time.Sleep(60 * time.Millisecond)
+	}
+	verifAssert(calls == 1 && gotErr == ErrAckTimeout, "the ack of an event that could not be sent in time gets ErrAckTimeout, once")
+	c.stateMu.Lock()
+	c.state = clientSocketConnStateConnected
+	c.stateMu.Unlock()
+	c.emitBuffered()
+	got := m.eioPacketQueue.get()
+	verifAssert(len(got) == len(want), "every other non-volatile offline emit is still sent after (re)connection, the timed-out one is not")
+	if len(got) == len(want) {
+		for i := range want {
+			verifAssert(verifFrameIs(got[i], want[i]), "offline emits are delivered once each, in the order they were emitted")
+		}
+	}
+	verifReach("end")
+}
